@@ -17,3 +17,10 @@ package defaults
 //@   property C15
 //@   ensures guard: each Render(_, ?data) => (mapget(data, "location") == ro.RedirectPath || !offsite(mapget(data, "location")))
 //@   ensures param_only_when_asked: each Render(_, ?data) => (!ro.FollowRedirParam ==> mapget(data, "location") == ro.RedirectPath)
+//@
+//@ func (errorHandler).ServeHTTP
+//@   property C17 C18
+//@   -- the error line must not carry secrets; the request URL does (mailed tokens travel in
+//@   -- the query string of the GET confirm / recover / 2FA-verify routes)
+//@   ensures[C17] no_secret_leak: secrets_clean
+//@   ensures[C18] error_is_logged: each CallFuncValue(_) -> ?e => e != nil ==> emits Log("error", _)
